@@ -382,6 +382,18 @@ def resize_case(ctx, H, W, nH, nW, v):
         if same_parity and gn.shape == new:
             nsurv = coords_checks(ctx, "resize", R, gn, gm, Identity(vals), ref.pixel_centres((H, W), s, o), s, wit)
 
+    if (H + 2 * W + nH + v) % 3 == 0:
+        # the same values as a Kernel2D (a PSF that is cut to a smaller stamp or embedded in a larger one): every subclass of the
+        # array resizes by the same centred crop / embedding, values untouched (the kernel is not normalised to begin with)
+        mk0 = np.zeros((H, W), bool)
+        okk, RK = ctx.guarded("resize.kernel2d", lambda: aa.Kernel2D.no_mask(values=vals.copy(), pixel_scales=s, origin=o).resized_from(new_shape=new))
+        if okk:
+            gkn, gkm = _native0(RK)
+            ctx.check(match_resize(gkn, gkm, vals, mk0, new, 0), "resize.array", how="Kernel2D.resized_from", got_native=gkn, got_mask=gkm,
+                      admissible_offsets=candidates((H, W), new), **wit)
+            ctx.check(geometry_of(RK.mask) == (new, s, o), "resize.geometry_kept", how="Kernel2D.resized_from", got=lambda: geometry_of(RK.mask), **wit)
+        ctx.classes["resized:Kernel2D"] += 1
+
     ok, MR = ctx.guarded("resize.mask", lambda: mask.resized_from(new_shape=new, pad_value=pad))
     if ok:
         gmm = np.array(_np(MR)).astype(bool)
